@@ -164,6 +164,37 @@ func ruleTypeCopy(c *Ctx) []Obligation {
 			} else {
 				obs = append(obs, bad(R, con3, c.InstrPos(cp.store), "the derivation step never writes "+strings.Join(missing, ", ")+" of the copy: what the statement says about it is ignored and the parent's value (or none) is kept"))
 			}
+			// inside the arm that handles one restriction (under `statement.Range != nil`) the same-typed sibling of
+			// the copy (Length) is not touched, and vice versa
+			for _, pair := range [][2]string{{"Range", "Length"}, {"Length", "Range"}} {
+				fStmt := FieldVar(namedOf(fn.Params[0].Type().(*types.Pointer).Elem()), pair[0])
+				if fStmt == nil {
+					continue
+				}
+				for _, r := range *cp.alloc.Referrers() {
+					fa, okf := r.(*ssa.FieldAddr)
+					if !okf {
+						continue
+					}
+					if _, f, _ := fieldOf(fa); f == nil || f.Name() != pair[1] {
+						continue
+					}
+					inArm := false
+					for _, g := range guardsAt(fa.Block()) {
+						x, isEq, okn := nilTest(g.Cond)
+						if !okn || isEq == g.Branch {
+							continue
+						}
+						if _, gf, base := loadedField(x); gf == fStmt && (isParamN(fn, base, 0) || isParamN(fn, resolveArg(rootOf(base)), 0)) {
+							inArm = true
+						}
+					}
+					if inArm {
+						obs = append(obs, bad(R, fmt.Sprintf("%s: the %s arm leaves the inherited %s alone", site.what, strings.ToLower(pair[0]), pair[1]), c.InstrPos(fa),
+							"the arm that applies the statement's "+strings.ToLower(pair[0])+" restriction reads or writes the copy's "+pair[1]+": the two restrictions are the same Go type, and one is being taken for the other"))
+					}
+				}
+			}
 			// an attribute taken from an optional substatement is overlaid on the branch where the statement has it
 			for _, r := range *cp.alloc.Referrers() {
 				fa, okf := r.(*ssa.FieldAddr)
@@ -339,7 +370,15 @@ func isFreshSlice(v ssa.Value) bool {
 		return true
 	case *ssa.Slice:
 		if x.Max != nil {
-			return true // three-index slice: capacity clipped, next append reallocates
+			// a three-index slice clips the capacity only if it ends where its length ends (s[:n:n]), and it keeps
+			// the content only if n is the length of the very slice it cuts
+			if x.High == nil || !sameExpr(x.High, x.Max) {
+				return false
+			}
+			if call, isC := x.Max.(*ssa.Call); isC && isLenOf(call) && !sameExpr(call.Call.Args[0], x.X) {
+				return false
+			}
+			return true
 		}
 		_, isAlloc := x.X.(*ssa.Alloc)
 		return isAlloc
